@@ -43,8 +43,10 @@ def freeze(v, _depth=0, skip_names=()):
         a = np.ascontiguousarray(v)
         return ("nd", a.dtype.str, a.shape, hashlib.sha1(a.tobytes()).hexdigest())
     if isinstance(v, dict):
+        # insertion order is kept: behaviour may depend on it (run_all walks the algorithms dict in order); an over-fine
+        # abstraction only costs time
         items = [(repr(k), freeze(x, _depth + 1, skip_names)) for k, x in v.items() if not _skip(x) and k not in skip_names]
-        return ("d", tuple(sorted(items, key=lambda t: t[0])))
+        return ("d", tuple(items))
     if isinstance(v, (list, tuple)):
         return ("l", tuple(freeze(x, _depth + 1, skip_names) for x in v if not _skip(x)))
     if isinstance(v, (set, frozenset)):
